@@ -37,7 +37,7 @@ MANIFEST = dict(
          "return_lists), C06_star_spelled (fan-out). FIRST on a chained selection: C06_chained_first (first returns "
          "firstOf(map single sels) of the per-parent selections sels: return_lists=False replaces every one-record parent "
          "selection by the bare value, then a single parent by its result, then first's own last step unwraps a remaining "
-         "one-element list) with C06_chained_first_cases (nothing -> default; one parent/one record -> that value, three levels "
+         "one-element list) with C06_chained_first_cases (nothing -> the default as it is, also when it is a one-element list: fix C04-f; one parent/one record -> that value, three levels "
          "unwrapped; one parent/several records -> their list; several parents -> the list of per-parent results, one-record "
          "parents as bare values). An inner `items` that is ONE dict record instead of a list of records (the library's hidden "
          "list): C06_chained_hidden / C06_chained_spellings_string (hypothesis InnerRecs: list of dict records or one dict record) - "
